@@ -2724,7 +2724,7 @@ func (m *Machine) IsQueued(mutType MutationType, states S,
 		idx := math.Max(0, float64(len(iter)-1))
 		iter = iter[int(idx):]
 	case PositionFirst:
-		iter = iter[0:1]
+		iter = iter[0:min(1, len(iter))]
 	}
 
 	for i, mut := range iter {
